@@ -126,6 +126,7 @@ class H:
         self.val = {}
         self.occ = Counter()
         self.fault = None  # (cbid, occ)
+        self.fault_kind = "boom"  # boom | tna | value
         self.raised = []
         self.sends, self.rets, self.yields = {}, {}, {}
         for c in spec["cbs"]:  # several defs may share one cbid (same function attached to several groups): first wins
@@ -187,10 +188,19 @@ def _make_action(cbid0, group, is_async, free):
         Hh.log.append(("B", cbid, occ, _info(Hh, args, machine, event, state, source, target, kwargs)))
         return Hh, occ
 
-    def maybe_fault(cbid, Hh, occ):
+    def maybe_fault(cbid, Hh, occ, event=None, state=None):
         if Hh.fault == (cbid, occ) or (group == "validators" and Hh.val.get(cbid)):
             Hh.log.append(("X", cbid, occ))
-            exc = Boom(cbid, occ)
+            kind = Hh.fault_kind if Hh.fault == (cbid, occ) else "boom"
+            if kind == "tna":
+                # a callback may raise the library's own exception (e.g. it forwards an event to another strict machine)
+                exc = TransitionNotAllowed(event, state)
+                exc.cbid, exc.occ = cbid, occ
+            elif kind == "value":
+                exc = ValueError(f"{cbid}#{occ}")
+                exc.cbid, exc.occ = cbid, occ
+            else:
+                exc = Boom(cbid, occ)
             Hh.raised.append(exc)
             raise exc
 
@@ -202,7 +212,7 @@ def _make_action(cbid0, group, is_async, free):
             if not (Hh.sends[cbid] and Hh.no_sender_yields):
                 for _ in range(Hh.yields[cbid]):
                     await asyncio.sleep(0)
-            maybe_fault(cbid, Hh, occ)
+            maybe_fault(cbid, Hh, occ, event, state)
             for i, (ev, a, kw) in enumerate(script):
                 Hh.log.append(("S", cbid, occ, i))
                 try:
@@ -228,7 +238,7 @@ def _make_action(cbid0, group, is_async, free):
 
         def body(cbid, args, machine, event, state, source, target, kwargs):
             Hh, occ = pre(cbid, args, machine, event, state, source, target, kwargs)
-            maybe_fault(cbid, Hh, occ)
+            maybe_fault(cbid, Hh, occ, event, state)
             for i, (ev, a, kw) in enumerate(Hh.sends[cbid].get(occ, ())):
                 Hh.log.append(("S", cbid, occ, i))
                 try:
@@ -308,7 +318,7 @@ class Rendered:
     def new_H(self):
         return H(self.spec)
 
-    def make(self, *, rtc=True, allow=False, Hh=None, model=None, model_given=False, listeners=None, late=(), **kw):
+    def make(self, *, rtc=True, allow=False, Hh=None, model=None, model_given=False, listeners=None, late=(), instance_cbs=True, **kw):
         """Instantiate. Without `model_given` the model is the generated model class when the spec places callbacks on it,
         else the library default; with it, `model` is the user object (may be falsy). Returns (sm, H)."""
         Hh = Hh or self.new_H()
@@ -319,6 +329,9 @@ class Rendered:
             o.H = Hh
             if prov in same or prov in same.values():
                 o._prov = prov
+            if instance_cbs:
+                for name, fn in getattr(self, "instance_fns", {}).get(same.get(prov, prov), {}).items():
+                    setattr(o, name, types.MethodType(fn, o))
             objs[prov] = o
         Hh.objs = objs
         if model_given:
@@ -350,6 +363,7 @@ def render(spec, *, cname=None, register=True):
 
     funcs = {}  # cbid -> function object (for func/deco/ method placement)
     ext_objs = {}
+    instance_fns = {}
     prov_ns = {}  # provider -> namespace dict
     same = spec.get("same_class", {})
     for c in cbs:
@@ -371,7 +385,11 @@ def render(spec, *, cname=None, register=True):
             setattr(type(ext), c["name"], fn)
             fn = getattr(ext, c["name"])
         funcs[cid] = fn
-        if not free and c["attach"] != "bound":
+        if c.get("instance") and prov not in ("machine", "free", "ext"):
+            # callback that exists as an attribute of ONE provider object only (set in make()), not of its class
+            instance_fns.setdefault(prov, {})[c["name"]] = fn
+            prov_ns.setdefault(prov, {})
+        elif not free and c["attach"] != "bound":
             prov_ns.setdefault(prov, {})[c["name"]] = fn
     for g in guards:
         if g["prov"] in same:
@@ -534,6 +552,9 @@ def render(spec, *, cname=None, register=True):
     for prov, pns in prov_ns.items():
         pname = f"{cname}_{prov}"
         pns = dict(pns, __module__=__name__, __qualname__=pname)
+        if prov in spec.get("falsy_providers", ()):
+            # e.g. an (empty) recorder object that defines __len__: falsy, but a listener like any other
+            pns["__len__"] = lambda a: 0
         if spec.get("eq_listeners") and prov != "model":
             # value-equal listener objects (e.g. frozen dataclasses): equality must not be mistaken for identity
             pns["__eq__"] = lambda a, b: type(a) is type(b)
@@ -545,7 +566,9 @@ def render(spec, *, cname=None, register=True):
     for twin, orig in same.items():
         if orig in pclasses:
             pclasses[twin] = pclasses[orig]
-    return Rendered(spec, cls, pclasses, uid)
+    r = Rendered(spec, cls, pclasses, uid)
+    r.instance_fns = instance_fns
+    return r
 
 
 # ------------------------------------------------------------------------------------------ interpreter
@@ -606,12 +629,13 @@ class Interp:
     docs/async.md and the property statements.  It *parses* the token log of a real run: the order of callbacks inside
     one group (which the docs leave open) is taken from the log, everything else must follow."""
 
-    def __init__(self, spec, *, rtc=True, allow=False, is_async=False, providers=None, start=None):
+    def __init__(self, spec, *, rtc=True, allow=False, is_async=False, providers=None, start=None, instance_cbs=True):
         self.spec = spec
         self.rtc, self.allow, self.is_async = rtc, allow, is_async
         self.providers = set(providers) if providers is not None else None  # attached providers (None: all)
         self.state = None
         self.start = start
+        self.instance_cbs = instance_cbs
         self.queue = deque()
         self.processing = False
         self.occ = Counter()
@@ -639,6 +663,8 @@ class Interp:
         return dec(s["value"]) if "value" in s else s["id"]
 
     def attached(self, d):
+        if d.get("instance") and not self.instance_cbs:
+            return False
         return self.providers is None or d["prov"] in self.providers or d["prov"] in ("machine", "free", "ext")
 
     def group_cbs(self, group, k, event, state_i):
@@ -924,7 +950,7 @@ class Interp:
 def exc_matches(exp, obs, Hh=None):
     """Observed exception vs expected one. Returns None or a description of the difference."""
     if isinstance(exp, ExpBoom):
-        if not isinstance(obs, Boom) or (obs.cbid, obs.occ) != (exp.cbid, exp.occ):
+        if (getattr(obs, "cbid", None), getattr(obs, "occ", None)) != (exp.cbid, exp.occ):
             return f"expected the failure injected at {exp.cbid}#{exp.occ}, got {obs!r}"
         if Hh is not None and not any(obs is r for r in Hh.raised):
             return "the exception that escaped is not the object the callback raised"
